@@ -109,7 +109,7 @@ impl Property for C07 {
         C07
     }
     fn rule(&self) -> String {
-        "built packages: 0..8 files with sizes {0..8, <300, 4095..4097, 32/64 KiB +-1, 128 KiB, 1 MiB} x {zeros, text, incompressible}, every compressor (levels across the documented ranges), standard and forced large-file (stripped) format, iterated on the built value and after write+parse; foreign hand-encoded packages whose archive omits %ghost files, permutes the header order or uses stripped entries; the six assets. Non-trivial = at least 2 files of different sizes, or a stripped/ghost/reordered archive; distinct by case hash.".into()
+        "built packages: EVERY absolute path length 2..=4094 (one long component; the 300 longest also as nested directories) followed by a second file; 0..8 files with sizes {0..8, <300, 4095..4097, 32/64 KiB +-1, 128 KiB, 1 MiB} x {zeros, text, incompressible}, every compressor (levels across the documented ranges), standard and forced large-file (stripped) format, iterated on the built value and after write+parse; foreign hand-encoded packages whose archive omits %ghost files, permutes the header order or uses stripped entries; the six assets. Non-trivial = at least 2 files of different sizes, or a stripped/ghost/reordered archive; distinct by case hash.".into()
     }
     fn assumptions(&self) -> Vec<String> {
         vec![
@@ -158,6 +158,33 @@ impl Property for C07 {
                         1 => vec![mk("a", 5, 1), mk("b", 0, 0), mk("c", 4097, 2)],
                         _ => vec![mk("big", 70_000, 2), mk("text", 20_000, 1)],
                     };
+                    Some(C07Case::Built(c))
+                }),
+            },
+            // "names of any length < 4096": every absolute path length 2..=4094 (cpio name "." + path,
+            // i.e. every name length up to 4095), as one long component or as nested directories,
+            // followed by a second file so that a mis-sized name shifts what is read next
+            Phase::Enumerate {
+                name: "every-path-length",
+                total: 4093 + 300,
+                exhaustive: true,
+                gen: Arc::new(|i| {
+                    // all lengths as one component; the 300 longest again as nested directories
+                    let nested = i >= 4093;
+                    let len = if nested { 4094 - (i - 4093) as usize } else { 2 + i as usize }; // length of "/…"
+                    let mut c = BuilderConfig::minimal("pathlen");
+                    c.compression = Comp { kind: if len % 2 == 0 { 0 } else { 2 }, level: None };
+                    let mk = |components: Vec<String>, size: u32| FileSpec { dot_style: false, components, content: ContentSpec { size, kind: 1, seed: 3 }, mode: ModeSpec::Regular(0o644), user: None, group: None, flags: 0, caps: None, symlink: None, mtime: 5, verify: None, mode_as_int: 0 };
+                    let comps: Vec<String> = if nested && len > 8 {
+                        // "/d/d/…/xxxx": components of one letter, the last one takes the rest
+                        let dirs = ((len - 4) / 2).min(40);
+                        let mut v: Vec<String> = (0..dirs).map(|_| "d".to_string()).collect();
+                        v.push("x".repeat(len - 1 - 2 * dirs));
+                        v
+                    } else {
+                        vec!["n".repeat(len - 1)]
+                    };
+                    c.files = vec![mk(comps, 1 + (len % 7) as u32), mk(vec!["z".into()], 9)];
                     Some(C07Case::Built(c))
                 }),
             },
